@@ -54,6 +54,7 @@ class Ctx:
         self.fp_products = {}     # (op, id a, id b) -> fresh result term
         self.fp_refine = []       # exact definitions of abstract products
         self.refine_timeout_ms = 60000
+        self.str_free = {}        # id of string var -> set of chars it lacks
         self.uf = {}
 
     # -- variables --------------------------------------------------------
@@ -1318,3 +1319,243 @@ def f64_model_value(m, x):
     sig = v.significand_as_long()
     bits = (sign << 63) | (ex << 52) | sig
     return struct.unpack('>d', struct.pack('>Q', bits))[0]
+
+
+# --------------------------------------------------------------------------
+# Strings (z3 String) — dictionary keys
+# --------------------------------------------------------------------------
+class SStr:
+    """Symbolic string (z3 String term).  Equality / containment fork."""
+    __slots__ = ('t',)
+    MAXLEN = 12
+
+    def __init__(self, t):
+        if isinstance(t, SStr):
+            t = t.t
+        elif isinstance(t, str):
+            t = z3.StringVal(t)
+        self.t = t
+
+    @staticmethod
+    def var(name):
+        return SStr(z3.String(name))
+
+    @staticmethod
+    def _co(o):
+        if isinstance(o, SStr):
+            return o
+        if isinstance(o, str):
+            return SStr(o)
+        return None
+
+    def concrete(self):
+        e = z3.simplify(self.t)
+        if z3.is_string_value(e):
+            return e.as_string()
+        return None
+
+    # -- syntactic reasoning under registered character-set assumptions ----
+    def _parts(self):
+        """Flatten into literal strings and variable terms (or None)."""
+        out = []
+
+        def walk(t):
+            if z3.is_string_value(t):
+                if out and isinstance(out[-1], str):
+                    out[-1] += t.as_string()
+                else:
+                    out.append(t.as_string())
+                return True
+            if z3.is_const(t) and t.decl().kind() == z3.Z3_OP_UNINTERPRETED:
+                out.append(t)
+                return True
+            if t.decl().kind() == z3.Z3_OP_SEQ_CONCAT:
+                return all(walk(ch) for ch in t.children())
+            return False
+        return out if walk(z3.simplify(self.t)) else None
+
+    def _free_of(self, chars, parts):
+        reg = ctx().str_free
+        for p in parts:
+            if not isinstance(p, str):
+                if not set(chars) <= reg.get(p.get_id(), set()):
+                    return False
+        return True
+
+    @staticmethod
+    def _join(parts):
+        if not parts:
+            return SStr('')
+        terms = [z3.StringVal(p) if isinstance(p, str) else p for p in parts]
+        if len(terms) == 1:
+            return SStr(terms[0])
+        return SStr(z3.simplify(z3.Concat(*terms)))
+
+    def __add__(self, o):
+        o = SStr._co(o)
+        if o is None:
+            return NotImplemented
+        return SStr(z3.simplify(z3.Concat(self.t, o.t)))
+
+    def __radd__(self, o):
+        o = SStr._co(o)
+        if o is None:
+            return NotImplemented
+        return SStr(z3.simplify(z3.Concat(o.t, self.t)))
+
+    def __eq__(self, o):
+        o = SStr._co(o)
+        if o is None:
+            return False
+        a, b = self.concrete(), o.concrete()
+        if a is not None and b is not None:
+            return a == b
+        return B(self.t == o.t)
+
+    def __ne__(self, o):
+        r = self.__eq__(o)
+        return (not r) if isinstance(r, bool) else ~r
+
+    def __hash__(self):
+        return 7            # all symbolic strings collide: dicts compare
+
+    def __contains__(self, sub):
+        sub = SStr._co(sub)
+        lit = sub.concrete()
+        parts = self._parts()
+        if lit is not None and parts is not None and lit and \
+                self._free_of(lit, parts):
+            # variables contain none of the pattern's characters (lemma
+            # 'no overlap'): occurrences lie inside literal runs
+            return any(isinstance(p, str) and lit in p for p in parts)
+        return ctx().decide(z3.Contains(self.t, sub.t))
+
+    def startswith(self, p):
+        return ctx().decide(z3.PrefixOf(SStr._co(p).t, self.t))
+
+    def endswith(self, p):
+        return ctx().decide(z3.SuffixOf(SStr._co(p).t, self.t))
+
+    def __len__(self):
+        v = self.concrete()
+        if v is not None:
+            return len(v)
+        c = ctx()
+        ln = z3.Length(self.t)
+        for k in range(SStr.MAXLEN+1):
+            if c.decide(ln == k):
+                return k
+        raise Inconclusive("symx: string longer than SStr.MAXLEN")
+
+    def split(self, sep, maxsplit=-1):
+        """str.split(sep) with a concrete separator (forks per part)."""
+        assert isinstance(sep, str) and sep
+        parts = self._parts()
+        if parts is not None and self._free_of(sep, parts):
+            pieces, cur_p = [], []
+            for p in parts:
+                if isinstance(p, str):
+                    segs = p.split(sep)
+                    for i, sg in enumerate(segs):
+                        if i > 0:
+                            pieces.append(cur_p)
+                            cur_p = []
+                        if sg:
+                            cur_p.append(sg)
+                else:
+                    cur_p.append(p)
+            pieces.append(cur_p)
+            return [SStr._join(x) for x in pieces]
+        out = []
+        cur = self.t
+        c = ctx()
+        for _ in range(SStr.MAXLEN+1):
+            if not c.decide(z3.Contains(cur, z3.StringVal(sep))):
+                out.append(SStr(z3.simplify(cur)))
+                return out
+            i = z3.IndexOf(cur, z3.StringVal(sep), 0)
+            out.append(SStr(z3.simplify(z3.SubString(cur, 0, i))))
+            cur = z3.SubString(cur, i+len(sep), z3.Length(cur))
+        raise Inconclusive("symx: too many parts in split")
+
+    def replace(self, old, new):
+        old, new = SStr._co(old), SStr._co(new)
+        lit = old.concrete()
+        parts = self._parts()
+        if lit and parts is not None and self._free_of(lit[0], parts):
+            # an occurrence must start inside a literal run (variables lack
+            # its first character)
+            res = []
+            okay = True
+            for i, p in enumerate(parts):
+                if not isinstance(p, str):
+                    res.append(p)
+                    continue
+                nxt_var = i+1 < len(parts)
+                # partial match at the end of the run followed by a var?
+                for k in range(1, len(lit)):
+                    if nxt_var and p.endswith(lit[:k]) and \
+                            not self._free_of(lit[k], [parts[i+1]]):
+                        okay = False
+                npart = new.concrete()
+                if npart is None:
+                    okay = False
+                    break
+                res.append(p.replace(lit, npart))
+            if okay:
+                return SStr._join([r for r in res if not (
+                    isinstance(r, str) and r == '')])
+        # python replaces all occurrences: iterate first-occurrence replace
+        c = ctx()
+        cur = self.t
+        res = z3.StringVal('')
+        for _ in range(SStr.MAXLEN+1):
+            if c.decide(z3.Length(old.t) == 0) or \
+                    not c.decide(z3.Contains(cur, old.t)):
+                return SStr(z3.simplify(z3.Concat(res, cur)))
+            i = z3.IndexOf(cur, old.t, 0)
+            res = z3.Concat(res, z3.SubString(cur, 0, i), new.t)
+            cur = z3.SubString(cur, i+z3.Length(old.t), z3.Length(cur))
+        raise Inconclusive("symx: too many replacements")
+
+    def __getitem__(self, k):
+        parts = self._parts()
+        if isinstance(k, slice) and k.step is None and parts and \
+                isinstance(parts[-1], str):
+            # tail / head slices that stay inside the last literal run
+            if k.start is not None and k.start < 0 and k.stop is None and \
+                    -k.start <= len(parts[-1]):
+                return SStr(parts[-1][k.start:])
+            if len(parts) == 1:
+                return SStr(parts[0][k])
+        n = len(self)
+        if isinstance(k, slice):
+            a, b, st = k.indices(n)
+            if st != 1:
+                raise TypeError("symx: string slice with step")
+            return SStr(z3.simplify(z3.SubString(self.t, a, max(0, b-a))))
+        if k < 0:
+            k += n
+        return SStr(z3.simplify(z3.SubString(self.t, k, 1)))
+
+    def __str__(self):
+        v = self.concrete()
+        if v is None:
+            raise TypeError("symx: str() of a symbolic string")
+        return v
+
+    def __repr__(self):
+        return f"SStr<{self.t}>"
+
+
+class _StrMeta(type):
+    def __instancecheck__(cls, obj):
+        return isinstance(obj, str)
+
+    def __call__(cls, x=''):
+        return x if isinstance(x, SStr) else str(x)
+
+
+class symstr(metaclass=_StrMeta):
+    """Replacement for builtins.str inside shadow modules: str(x) keeps a
+    symbolic string; isinstance(v, str) behaves as for the builtin."""
